@@ -84,6 +84,8 @@ theorem cutLoop_walk (s T : Bytes) (n0 : Nat) (hs : Spec.inflate s = some (T, n0
       have : bits1.unread.pos = p + 1 := by rw [pu, q1]
       exact this
     have hfbw := iu.nBits_le
+    generalize bits1.unread.index = fbi at h hfbp hfbw
+    generalize bits1.unread.nBits = fbn at h hfbn hfbp hfbw
     -- the block type
     obtain ⟨t2, i2, q2, y2⟩ := take_avail bits1 i1 2 (by omega) (by rw [y1, q1]; simp only [avail]; omega)
     generalize bits1.take 2 = r2 at h t2 i2 q2 y2
@@ -122,7 +124,7 @@ theorem cutLoop_walk (s T : Bytes) (n0 : Nat) (hs : Spec.inflate s = some (T, n0
         exact ⟨fixed_blocksim s _ hc2 hy p q2 out p1 out1 hty hbody hcd hT1sz _, blockAt_fixed s p out p1 out1 hty hbody⟩
     obtain ⟨hsim, hblkAt⟩ := hboth
     obtain ⟨c3, err⟩ := blk
-    obtain ⟨k1, k2, k3, k4, k5⟩ := hsim
+    obtain ⟨k1, k2, k3, k4, k5, k6⟩ := hsim
     have hk1 : c3.bits.bytes.size = s.size := k1
     have hk2 : c3.maxEncodedLen = m := by
       have : c3.maxEncodedLen = c.maxEncodedLen := k2
@@ -171,6 +173,9 @@ theorem cutLoop_walk (s T : Bytes) (n0 : Nat) (hs : Spec.inflate s = some (T, n0
         exact ⟨n, p, out, rfl, hfbn, hfbp, hr, hf0, hblkAt⟩
     · -- errInternalNoProgress
       have hbs : c3.bits.bytes = s := k5 (Or.inl rfl)
+      have hdl : c3.decodedLen = (out.size : Int) := by
+        have : c3.decodedLen = c.decodedLen := k6 rfl
+        rw [this, hcd]
       simp only [unread_bytes] at h
       split at h
       · rw [hbs, hk2] at h
@@ -183,34 +188,127 @@ theorem cutLoop_walk (s T : Bytes) (n0 : Nat) (hs : Spec.inflate s = some (T, n0
         · rename_i b' hpb
           rw [hbs] at hpb
           obtain ⟨_, _, g3, g4⟩ := patchFinalBit_bits _ _ _ _ hpb hpn8
-          have hwf : (({ c3.bits with index := bits1.unread.index, nBits := bits1.unread.nBits + 1 } : Bitstream).unread).nBits ≤
-              8 * (({ c3.bits with index := bits1.unread.index, nBits := bits1.unread.nBits + 1 } : Bitstream).unread).index := by
+          have hwf : (({ c3.bits with index := fbi, nBits := fbn + 1 } : Bitstream).unread).nBits ≤
+              8 * (({ c3.bits with index := fbi, nBits := fbn + 1 } : Bitstream).unread).index := by
             simp only [Bitstream.unread]; omega
           obtain ⟨f1, f2, f3, f4⟩ := finish_bits _ enc e d h (unread_nBits_lt _) hwf
           simp only [Bitstream.unread] at f1 f3 f4
           have f2 : d = c3.decodedLen.toNat := f2
           have hp'3 := hblk'.1
-          generalize hidx : bits1.unread.index - (bits1.unread.nBits + 1) / 8 = idx at f1 f4
-          generalize hnb : (bits1.unread.nBits + 1) % 8 = nb at f4
-          have hposc : 8 * idx - nb = p := by omega
+          have hposc : 8 * (fbi - (fbn + 1) / 8) - (fbn + 1) % 8 = p := by omega
           have hesz : e ≤ enc.size := by
             have : enc.size = s.size := by rw [f3, g3]
-            have : 8 * idx ≤ p + 7 := by omega
+            have : 8 * (fbi - (fbn + 1) / 8) ≤ p + 7 := by omega
             omega
           have hsz'' : (enc.extract 0 e).size = e := extract_size_le enc e hesz
           have hbits : ∀ i, i < p → bitAt (enc.extract 0 e) i = if i = p' then 1 else bitAt s i := by
             intro i hi
             rw [bitAt_extract _ _ _ (by omega), f4 i]
-            have : ¬ (8 * idx - nb ≤ i ∧ i < 8 * idx) := by omega
-            rw [if_neg this, g4 i]
+            have : ¬ (8 * (fbi - (fbn + 1) / 8) - (fbn + 1) % 8 ≤ i ∧ i < 8 * (fbi - (fbn + 1) / 8)) := by omega
+            simp only [this, if_false]
+            rw [g4 i]
             have : 8 * pi - pn - 1 = p' := by omega
             rw [this]
-          have hdl : c3.decodedLen = (out.size : Int) := by
-            -- the block function did not touch decodedLen? it reports noProgress: decodedLen is not used
-            sorry
-          sorry
-    · sorry
-    · sorry
+          have := good_final s s (enc.extract 0 e) mm p' out' p out hr' hblk'
+            (fun i hi => by rw [hbits i (by omega)]; have : ¬ (i = p') := by omega
+                            rw [if_neg this])
+            (by rw [hbits p' (by omega)]; simp)
+            (fun i h1 h2 => by rw [hbits i h2]; have : ¬ (i = p') := by omega
+                               rw [if_neg this])
+            (by rw [hsz'']; omega)
+          exact good_of T enc e d p out xT hxT (by rw [f2, hdl]; simp) (by omega) this
+    · -- errInternalSomeProgress
+      obtain ⟨pos', o, b1, b2, b3, b4, b5, ⟨x1, hx1⟩, b7, b8⟩ := k4 rfl
+      have b1 : 8 * c3.bits.index - c3.bits.nBits = pos' := b1
+      have b2 : c3.bits.nBits ≤ 8 * c3.bits.index := b2
+      have b3 : c3.bits.nBits ≤ 8 := b3
+      have b4 : pos' ≤ 8 * m := by have : pos' ≤ 8 * c.maxEncodedLen := b4
+                                   rw [hcm] at this; exact this
+      have b5 : c3.decodedLen = (o.size : Int) := b5
+      have b7 : ∀ i, i ≤ p → bitAt c3.bits.bytes i = bitAt s i := b7
+      have b8 : BlockAt c3.bits.bytes p out pos' o := b8
+      simp only [unread_bytes] at h
+      split at h
+      · simp at h
+      · rename_i b' hpb
+        obtain ⟨_, _, g3, g4⟩ := patchFinalBit_bits _ _ _ _ hpb hfbn
+        have hwf : c3.bits.unread.nBits ≤ 8 * c3.bits.unread.index := by
+          simp only [Bitstream.unread]; omega
+        obtain ⟨f1, f2, f3, f4⟩ := finish_bits _ enc e d h (unread_nBits_lt _) hwf
+        have f1 : e = c3.bits.unread.index := f1
+        have f2 : d = c3.decodedLen.toNat := f2
+        have f3 : enc.size = b'.size := f3
+        have hpos : 8 * c3.bits.unread.index - c3.bits.unread.nBits = pos' := by
+          simp only [Bitstream.unread]; omega
+        have hnb := unread_nBits_lt c3.bits
+        have hp3 := b8.1
+        have hesz : e ≤ enc.size := by
+          have : enc.size = s.size := by rw [f3, g3]; exact hk1
+          have : 8 * c3.bits.unread.index ≤ pos' + 7 := by omega
+          omega
+        have hsz'' : (enc.extract 0 e).size = e := extract_size_le enc e hesz
+        have hbits : ∀ i, i < pos' → bitAt (enc.extract 0 e) i = if i = p then 1 else bitAt c3.bits.bytes i := by
+          intro i hi
+          rw [bitAt_extract _ _ _ (by omega), f4 i]
+          have : ¬ (8 * c3.bits.unread.index - c3.bits.unread.nBits ≤ i ∧ i < 8 * c3.bits.unread.index) := by omega
+          rw [if_neg this]
+          show bitAt b' i = _
+          rw [g4 i]
+          have : 8 * fbi - fbn - 1 = p := by omega
+          rw [this]
+        have := good_final s c3.bits.bytes (enc.extract 0 e) n p out pos' o hr b8
+          (fun i hi => by rw [hbits i (by omega)]; have : ¬ (i = p) := by omega
+                          rw [if_neg this, b7 i (by omega)])
+          (by rw [hbits p (by omega)]; simp)
+          (fun i h1 h2 => by rw [hbits i h2]; have : ¬ (i = p) := by omega
+                             rw [if_neg this])
+          (by rw [hsz'']; omega)
+        exact good_of T enc e d pos' o (x1 ++ yT) (by rw [hyT, hx1, Array.append_assoc]) (by rw [f2, b5]; simp)
+          (by omega) this
+    · -- errInternalReplaceWithSingleBlock
+      have hbs : c3.bits.bytes = s := k5 (Or.inr rfl)
+      simp only [unread_bytes] at h
+      rw [hbs, hk2] at h
+      exact cutSingleBlock_good s T n0 hs m enc e d hm h
     · simp at h
+
+/-- **THE property for every valid stream of stored and fixed-Huffman blocks** (any number of blocks, in
+any order; `hnd` excludes dynamic blocks): `flatecut.Cut`, with or without a writer, any limit. -/
+theorem Cut_nodyn (w : Bool) (s T : Bytes) (n0 : Nat) (limit : Int) (r : CutResult)
+    (hs : Spec.inflate s = some (T, n0)) (hT : T.size < 2147483648)
+    (hnd : ∀ n p out, RReach s n p out → bitsLE s (p + 1) 2 ≠ 2) (h : Cut w s limit = .ok r) :
+    Spec.inflate (r.encoded.extract 0 r.encodedLen) = some (T.extract 0 r.decodedLen, r.encodedLen) ∧
+    r.decodedLen ≤ T.size ∧ (w = true → r.written = T.extract 0 r.decodedLen) := by
+  obtain ⟨pE, hblk, _⟩ := inflate_blocks s T n0 hs
+  rw [Cut_eq] at h
+  split at h
+  · simp at h
+  · rename_i hlim
+    simp only [smallestValidMaxEncodedLen] at hlim
+    have hcl := clampLimit_le limit s.size (by omega)
+    generalize clampLimit limit s.size = m at h hcl
+    split at h
+    · simp at h
+    · rename_i hm2
+      simp only [smallestValidMaxEncodedLen] at hm2
+      split at h
+      · simp at h
+      · rename_i enc eLen dLen hc
+        have hg := cutLoop_walk s T n0 hs (by omega) hnd m (by omega) hcl.1 (8 * s.size + 2) 0
+          ⟨⟨s, 0, 0, 0⟩, m, 0, 0, 0, Huffman.zero, Huffman.zero⟩ none 0 #[] (8 * s.size + 1) pE enc eLen dLen
+          RReach.zero ⟨inv_fresh s 0 (Nat.zero_le _), hcl.1, Huffman.zero_shape, Huffman.zero_shape⟩ rfl rfl rfl
+          (by simp) rfl hblk hc
+        obtain ⟨hg1, hg2⟩ := hg
+        have hio := inflate_some_out _ _ _ hg1
+        split at h
+        · rename_i hw
+          simp only [hio.1, hio.2] at h
+          split at h <;> simp at h
+          subst h
+          exact ⟨hg1, hg2, fun _ => rfl⟩
+        · rename_i hw
+          simp at h
+          subst h
+          exact ⟨hg1, hg2, fun hw' => absurd hw' hw⟩
 
 end WuffsVerif.Flate.Cut
